@@ -51,6 +51,10 @@ class Stats:
         self.inconclusive: Dict[str, int] = {}
         self.targets: Dict[str, int] = {}
         self.extra: Dict[str, Any] = {}
+        self.distinct_counted = 0  # distinct non-trivial points of complete enumerations (distinct by construction)
+
+    def add_distinct(self, n: int) -> None:
+        self.distinct_counted += n
 
     def count(self, *labels: str) -> None:
         for l in labels:
@@ -94,6 +98,7 @@ class Stats:
             "inconclusive": self.inconclusive,
             "targets": self.targets,
             "extra": self.extra,
+            "distinct_counted": self.distinct_counted,
         }
 
 
@@ -104,6 +109,7 @@ def _merge(dst: dict, src: dict) -> None:
         for k, v in src[key].items():
             dst[key][k] = dst[key].get(k, 0) + v
     dst["nontrivial"].update(src["nontrivial"])
+    dst["distinct_counted"] = dst.get("distinct_counted", 0) + src.get("distinct_counted", 0)
     for s in src["samples"]:
         if len(dst["samples"]) < 5:
             dst["samples"].append(s)
@@ -367,7 +373,7 @@ def run_check(check_id: str, tier: str, seed: int, jobs: int = 16) -> int:
             unknown_known.append(fid)
 
     rule = getattr(mod, "RULE", "")
-    nt = len(merged["nontrivial"])
+    nt = len(merged["nontrivial"]) + merged.get("distinct_counted", 0)
     ev = {
         "property_id": check_id,
         "tier": tier,
